@@ -80,6 +80,8 @@ def valid(m, t, j, depth=0) -> bool:
 def valid_props(m, props, j, depth) -> bool:
     if not isinstance(j, dict):
         return False
+    if not props:
+        return True   # a structure / literal without declared properties is an extension point
     names = {p["name"] for p in props}
     if any(kk not in names for kk in j):
         return False
